@@ -1686,6 +1686,12 @@ where
 
                 runtime.notify(Notification::Rejoin(&new_identity));
 
+                // We still know the cluster members: resume probing right
+                // away instead of waiting for a message addressed to the
+                // new identity, which may never come if our peers are
+                // rejoining at the same time
+                self.adjust_connection_state(&mut runtime);
+
                 Ok(true)
             }
         } else {
